@@ -36,7 +36,9 @@
 //	      session's or an earlier session's frame, or never got it => it does not complete
 //	forged-credential-accepted/<proto>/<role>/<variant>, tls-chain-length-accepted
 //	      clause 3 for a Byzantine peer: identity key / signature substituted, credential made for another
-//	      session (other static key / other certificate key), signature empty or garbage, extension absent;
+//	      session (other static key / other certificate key) — also a byte-identical copy of the credential
+//	      that the honest process has just verified in a real handshake with its owner (warm replay: state
+//	      remembered about verified credentials must not let the copy pass), signature empty or garbage, extension absent;
 //	      chain length 0 / 2 (libp2p TLS specification: exactly one certificate)
 //	prologue-ignored            doc of noise.Prologue: completes only if both parties set the same prologue
 //	early-data-altered/-forged  a side that completes holds exactly the early data its partner sent
@@ -54,6 +56,9 @@
 //     TLS client "completes" therefore means handshake returned AND the first Read delivered the peer's bytes.
 //   - A duplicate / junk that arrives after the last handshake frame a side reads in that direction is
 //     transport data (its Read must fail: forged-data-accepted), not handshake data it should have refused.
+//   - A truncation that leaves the length field alone is completed by the receiver with the bytes that
+//     follow in the stream; when those equal the bytes that were cut (1 in 256 for one byte of ciphertext)
+//     the receiver consumed exactly what its partner sent and may complete (mitm.restored).
 //   - TLS 1.3 leaves the legacy version bytes of the first record of each direction and dummy
 //     ChangeCipherSpec records unauthenticated: never edited, never counted as handshake frames.
 //   - multistream-select frames are unauthenticated by design: for them only clauses 1 and 2 are asserted.
@@ -87,6 +92,7 @@
 //	tls: MatchesPublicKey check removed from ConfigForPeer -> expected-peer-ignored/tls/{initiator,responder}
 //	tls: len(chain) != 1 relaxed to < 1                    -> tls-chain-length-accepted/*/chain-length-2
 //	tls: ConfigForPeer without Clone()                     -> honest-handshake-refused/tls/* (concurrent sessions of one transport)
+//	tls: LRU of verified extensions keyed by extension bytes (seeded) -> forged-credential-accepted/tls/{initiator,responder}/verified-credential-replayed
 //	upgrader: SecureInbound called with "" instead of p    -> expected-peer-ignored/upgrader/responder
 //	swarm: both re-checks of RemotePeer() removed          -> dial-returned-wrong-peer/{noise,tls} (lax transport)
 //	swarm: only dialAddr's or only dialPeer's re-check removed -> NOT reported (masked by the other one, see above)
